@@ -7,7 +7,7 @@ import numpy as np
 
 from .core import Prop, close, dec_list, enc, enc_list, exc_class
 
-CONTAINERS = ["np_float", "np_int", "list", "tuple_rows", "polars_float", "polars_int", "polars_uint", "np_uint"]
+CONTAINERS = ["np_float", "np_int", "list", "tuple_rows", "polars_float", "polars_int", "polars_uint", "np_uint", "list_np_int_rows"]
 
 
 def build_X(container, rows):
@@ -19,6 +19,8 @@ def build_X(container, rows):
         return np.array(rows, dtype=np.int64)
     if container == "list":
         return [list(r) for r in rows]
+    if container == "list_np_int_rows":
+        return [np.array(r, dtype=np.int64) for r in rows]  # rows that cannot hold a non-integer grid value
     if container == "tuple_rows":
         return [list(r) for r in rows]  # rows must be mutable copies for safe_assign_column; list of lists again
     if container == "np_uint":
@@ -40,6 +42,8 @@ def snapshot(obj):
         return ("pl", [str(t) for t in obj.dtypes], obj.rows())
     if isinstance(obj, pl.Series):
         return ("pls", str(obj.dtype), obj.to_list())
+    if isinstance(obj, list) and obj and isinstance(obj[0], np.ndarray):
+        return ("pylist_np", [(r.dtype.str, r.tolist()) for r in obj])
     return ("py", copy.deepcopy(obj))
 
 
@@ -147,6 +151,8 @@ class C16(Prop):
         return r
 
     def compare(self, case, io, mo):
+        if "err" in io and self.refusal_ok(case, io):
+            return None
         if "err" in io:
             return f"valid call rejected: {io['err']}: {io.get('msg')}"
         for i, (u, v) in enumerate(zip(io["pd"], dec_list(mo["pd"]))):
@@ -154,7 +160,15 @@ class C16(Prop):
                 return f"partial dependence at grid value {case['grid'][i]}: {u!r}, model {float(v)!r}"
         return None
 
+    @staticmethod
+    def refusal_ok(case, io):
+        """integer rows cannot take a non-integer grid value: refusing with ValueError is right, truncating silently is not"""
+        return (case["container"] == "list_np_int_rows" and io.get("err") == "ValueError"
+                and any(Fraction(g).denominator != 1 for g in case["grid"]))
+
     def oracle(self, case, io):
+        if "err" in io and self.refusal_ok(case, io):
+            return None
         if "err" in io:
             return f"valid call rejected: {io['err']}: {io.get('msg')}"
         rows = [[Fraction(v) for v in r] for r in case["rows"]]
